@@ -257,10 +257,10 @@ func (p *peer) Dial(addr string, protoFunc ...ProtoFunc) (Session, *Status) {
 			}
 			sess.changeStatus(statusOk)
 			vp("redial.ok", sess, 0, 0)
-			AnywayGo(sess.startReadAndHandle)
-			vp("redial.reader", sess, 0, 0)
 			p.sessHub.set(sess)
 			vp("redial.indexed", sess, 0, 0)
+			AnywayGo(sess.startReadAndHandle)
+			vp("redial.reader", sess, 0, 0)
 			Infof("redial ok (network:%s, addr:%s, id:%s)", p.network, addr, sess.ID())
 			return true
 		}
@@ -269,10 +269,12 @@ func (p *peer) Dial(addr string, protoFunc ...ProtoFunc) (Session, *Status) {
 	Infof("dial ok (network:%s, addr:%s, id:%s)", p.network, addr, sess.ID())
 	sess.changeStatus(statusOk)
 	vp("dial.ok", sess, 0, 0)
-	AnywayGo(sess.startReadAndHandle)
-	vp("dial.reader", sess, 0, 0)
+	// index the session before its reader runs: a reader that sees the
+	// connection go away at once must find the entry it has to remove
 	p.sessHub.set(sess)
 	vp("dial.indexed", sess, 0, 0)
+	AnywayGo(sess.startReadAndHandle)
+	vp("dial.reader", sess, 0, 0)
 	return sess, nil
 }
 
@@ -302,10 +304,10 @@ func (p *peer) ServeConn(conn net.Conn, protoFunc ...ProtoFunc) (Session, *Statu
 	Infof("serve ok (network:%s, addr:%s, id:%s)", network, sess.RemoteAddr().String(), sess.ID())
 	sess.changeStatus(statusOk)
 	vp("accept.ok", sess, 0, 0)
-	AnywayGo(sess.startReadAndHandle)
-	vp("accept.reader", sess, 0, 0)
 	p.sessHub.set(sess)
 	vp("accept.indexed", sess, 0, 0)
+	AnywayGo(sess.startReadAndHandle)
+	vp("accept.reader", sess, 0, 0)
 	return sess, nil
 }
 
